@@ -176,8 +176,14 @@ func runMconn(c *core.Ctx) {
 	// no goroutine of the harness holds the state mutex now (the connection is stopped): a held mutex was leaked
 	// by a message handler and halts the node
 	if !victim.CS.VerifStateLockFree() {
-		time.Sleep(200 * time.Millisecond)
-		if !victim.CS.VerifStateLockFree() {
+		// a leaked lock stays held for ever: the probe is patient (up to 15 s) so that a goroutine descheduled on a
+		// loaded machine while it holds the lock is not taken for a leak
+		free := false
+		for i := 0; i < 300 && !free; i++ {
+			time.Sleep(50 * time.Millisecond)
+			free = victim.CS.VerifStateLockFree()
+		}
+		if !free {
 			c.Violation("state-lock-leaked/burst", fmt.Sprintf("after burst %s over a real MConnection the consensus state mutex stays held: the node is halted", shape), nil)
 			return
 		}
